@@ -7,8 +7,8 @@ ALL = [p["id"] for p in PROPS]
 
 # id -> (category, text, design_ref, level_note, technique)
 CLAIMED = {
- "C11": ("other",
-   "Lean 4 model of pest::Stack (every usize subtraction / drain range an explicit panic outcome), refinement theorems to the copy-at-snapshot stack for every history (in progress: statements fixed in lean/PestModel/Thm/C11.lean), tied to the code by exhaustive (all histories to length 6/7 over 7 operations) plus random correspondence through the public API, with the naive stack also evaluated on the implementation as oracle.",
+ "C11": ("proof",
+   "Lean 4 model of pest::Stack (every usize subtraction / drain range an explicit panic outcome); kernel-checked refinement to the copy-at-snapshot stack for every history at any snapshot depth (inv_init, step_no_panic, step_inv, step_refines, run_refines); tied to the code by exhaustive (all histories to length 6/7 over 7 operations) plus random correspondence through the public API, with the naive stack also evaluated on the implementation as oracle.",
    "DESIGN.md §6 C11",
    "Lean kernel; axioms propext/Classical.choice/Quot.sound only; hand-written model tied by correspondence (differential), harness and runner trusted.",
    "Lean 4 refinement proof (invariant + abstraction function) + exhaustive/random correspondence with pest::Stack"),
